@@ -331,3 +331,222 @@ Qed.
 Lemma utf8_complete_prefix a b :
   utf8_valid (a ++ b) = true -> incomplete_unicode a = false -> utf8_valid a = true.
 Proof. apply (utf8_complete_prefix_len (length a)). lia. Qed.
+
+
+(** ** (4) the side condition [lossless_run] holds whenever the generated text is (a prefix of) valid UTF-8 *)
+Section ValidText.
+  Variable stops : list str.
+  Variable limit : nat.
+  Hypothesis stops_nonempty : forall t, In t stops -> t <> [].
+
+  Lemma lossless_run_fin ts : forall s r, fin s = Some r -> lossless_run stops limit s ts.
+  Proof.
+    induction ts as [|t ts IH]; intros s r Hf; cbn [lossless_run]; [exact I|].
+    split.
+    - unfold lossless_step. rewrite Hf. exact I.
+    - rewrite (step_fin_sticky stops limit s t r Hf). exact (IH s r Hf).
+  Qed.
+
+  (** a step after which the sequence is still generating consumed a piece and appended it to the generated text *)
+  Lemma step_running_gen s t :
+    fin (step stops limit s t) = None ->
+    exists p, t = Piece p /\ fin s = None /\ gen (step stops limit s t) = gen s ++ p.
+  Proof.
+    unfold step. destruct (fin s) as [r|] eqn:Ef; [intros H; congruence|].
+    destruct (at_limit limit s); [cbn; discriminate|].
+    destruct t as [p|]; [|cbn; discriminate].
+    destruct (find_stop (concat (pending s ++ [p])) stops); [cbn; discriminate|].
+    intros _. exists p. split; [reflexivity|]. split; [reflexivity|].
+    destruct (contains_stop_suffix _ _); [reflexivity|].
+    destruct (incomplete_unicode _); reflexivity.
+  Qed.
+
+  Lemma valid_text_lossless_step s t ts rest :
+    Inv stops s ->
+    (fin s = None -> utf8_valid (gen s ++ gen_text (t :: ts) ++ rest) = true) ->
+    lossless_step stops limit s t.
+  Proof.
+    intros Hi Hv. unfold lossless_step. destruct (fin s) as [r|] eqn:Ef; [exact I|].
+    destruct (at_limit limit s); [exact I|].
+    destruct t as [p|]; [|exact I].
+    destruct (find_stop (concat (pending s ++ [p])) stops); [exact I|].
+    destruct (contains_stop_suffix _ _); [exact I|].
+    destruct (incomplete_unicode (concat (pending s ++ [p]))) eqn:Hinc; [exact I|].
+    specialize (Hv eq_refl). unfold Inv in Hi. rewrite Ef in Hi.
+    destruct Hi as [Hg [_ [_ [_ Hval]]]].
+    cbn [gen_text] in Hv. rewrite Hg in Hv. unfold output in Hv.
+    rewrite <- !app_assoc in Hv.
+    rewrite (utf8_valid_app _ _ (utf8_valid_concat _ Hval)) in Hv.
+    rewrite concat_snoc.
+    apply (utf8_complete_prefix _ (gen_text ts ++ rest)).
+    - rewrite <- app_assoc. exact Hv.
+    - rewrite <- concat_snoc. exact Hinc.
+  Qed.
+
+  Lemma valid_text_lossless_from ts : forall s rest,
+    Inv stops s ->
+    (fin s = None -> utf8_valid (gen s ++ gen_text ts ++ rest) = true) ->
+    lossless_run stops limit s ts.
+  Proof.
+    induction ts as [|t ts IH]; intros s rest Hi Hv; cbn [lossless_run]; [exact I|].
+    pose proof (valid_text_lossless_step s t ts rest Hi Hv) as Hstep.
+    split; [exact Hstep|].
+    apply (IH _ rest).
+    - apply Inv_step; assumption.
+    - intros Hrun. destruct (step_running_gen s t Hrun) as [p [-> [Hf Hgen]]].
+      rewrite Hgen. specialize (Hv Hf). cbn [gen_text] in Hv.
+      rewrite <- !app_assoc in *. exact Hv.
+  Qed.
+
+  (** the generated text is a prefix of valid UTF-8 (in particular: is valid UTF-8) => no flush ever drops a byte *)
+  Theorem valid_text_lossless ts rest :
+    utf8_valid (gen_text ts ++ rest) = true -> lossless_run stops limit init ts.
+  Proof.
+    intros Hv. apply (valid_text_lossless_from ts init rest).
+    - apply Inv_init. exact stops_nonempty.
+    - intros _. cbn [gen init app]. exact Hv.
+  Qed.
+End ValidText.
+
+
+(** ** (5) the ghost [gen] really is the text of the scripted pieces consumed so far *)
+Section Script.
+  Variable stops : list str.
+  Variable limit : nat.
+
+  Lemma step_gen s t :
+    gen (step stops limit s t) = gen s \/ exists p, t = Piece p /\ gen (step stops limit s t) = gen s ++ p.
+  Proof.
+    unfold step. destruct (fin s); [left; reflexivity|].
+    destruct (at_limit limit s); [left; reflexivity|].
+    destruct t as [p|]; [|left; reflexivity].
+    right. exists p. split; [reflexivity|].
+    destruct (find_stop _ _); [reflexivity|].
+    destruct (contains_stop_suffix _ _); [reflexivity|].
+    destruct (incomplete_unicode _); reflexivity.
+  Qed.
+
+  Lemma fold_fin_sticky ts : forall s r, fin s = Some r -> fold_left (step stops limit) ts s = s.
+  Proof.
+    induction ts as [|t ts IH]; intros s r Hf; cbn; [reflexivity|].
+    rewrite (step_fin_sticky stops limit s t r Hf). exact (IH s r Hf).
+  Qed.
+
+  Lemma gen_script_prefix_from ts : forall s,
+    Prefix (gen (fold_left (step stops limit) ts s)) (gen s ++ gen_text ts).
+  Proof.
+    induction ts as [|t ts IH]; intros s; cbn [fold_left].
+    - apply Prefix_app_r.
+    - destruct (fin (step stops limit s t)) as [r|] eqn:Ef.
+      + rewrite (fold_fin_sticky ts _ r Ef).
+        destruct (step_gen s t) as [-> | [p [-> ->]]].
+        * apply Prefix_app_r.
+        * cbn [gen_text]. rewrite app_assoc. apply Prefix_app_r.
+      + destruct (step_running_gen stops limit s t Ef) as [p [-> [_ Hg]]].
+        specialize (IH (step stops limit s (Piece p))). rewrite Hg in IH.
+        cbn [gen_text]. rewrite app_assoc. exact IH.
+  Qed.
+
+  Lemma settle_gen s : gen (settle limit s) = gen s.
+  Proof. unfold settle. destruct (fin s); [reflexivity|]. destruct (at_limit limit s); reflexivity. Qed.
+
+  Theorem gen_script_prefix ts : Prefix (gen (settle limit (run stops limit ts))) (gen_text ts).
+  Proof. rewrite settle_gen. exact (gen_script_prefix_from ts init). Qed.
+End Script.
+
+
+(** ** (6) valid text: every streamed piece is whole UTF-8 and stop-free *)
+Lemma pieces_whole_and_stop_free stops limit :
+  (forall t, In t stops -> t <> []) -> forall ts rest,
+  utf8_valid (gen_text ts ++ rest) = true ->
+  Forall (fun p => utf8_valid p = true /\ forall t, In t stops -> ~ Infix t p)
+         (out (settle limit (run stops limit ts))).
+Proof.
+  intros H1 ts rest H2.
+  pose proof (valid_text_lossless stops limit H1 ts rest H2) as Hl.
+  pose proof (Inv_settle stops limit _ (Inv_run stops limit H1 ts Hl)) as Hi.
+  pose proof (Inv_pieces_valid stops _ Hi) as Hv.
+  pose proof (Inv_stop_free stops _ Hi) as Hs.
+  apply Forall_forall. intros p Hp. split; [exact (proj1 (Forall_forall _ _) Hv p Hp)|].
+  intros t Ht Hinf. apply (Hs t Ht). unfold output.
+  apply in_split in Hp. destruct Hp as [l1 [l2 ->]]. rewrite concat_app. cbn [concat].
+  apply Infix_app_l, Infix_app_r. exact Hinf.
+Qed.
+
+(** ** (7) the limit is respected, and EOS or the limit always end a sequence *)
+Section Ends.
+  Variable stops : list str.
+  Variable limit : nat.
+
+  Lemma step_npred_le s t : 0 < limit -> npred s <= limit -> npred (step stops limit s t) <= limit.
+  Proof.
+    intros Hl Hn. unfold step. destruct (fin s); [exact Hn|].
+    destruct (at_limit limit s) eqn:Ea; [exact Hn|].
+    assert (Hlt : S (npred s) <= limit).
+    { unfold at_limit in Ea. apply andb_false_iff in Ea. destruct Ea as [Ea|Ea].
+      - apply Nat.ltb_ge in Ea. lia.
+      - apply Nat.leb_gt in Ea. lia. }
+    destruct t as [p|]; [|exact Hlt].
+    destruct (find_stop _ _); [exact Hlt|].
+    destruct (contains_stop_suffix _ _); [exact Hlt|].
+    destruct (incomplete_unicode _); exact Hlt.
+  Qed.
+
+  Lemma fold_npred_le ts : forall s, 0 < limit -> npred s <= limit ->
+    npred (fold_left (step stops limit) ts s) <= limit.
+  Proof.
+    induction ts as [|t ts IH]; intros s Hl Hn; cbn [fold_left]; [exact Hn|].
+    apply IH; [exact Hl | apply step_npred_le; assumption].
+  Qed.
+
+  Lemma settle_npred s : npred (settle limit s) = npred s.
+  Proof. unfold settle. destruct (fin s); [reflexivity|]. destruct (at_limit limit s); reflexivity. Qed.
+
+  Theorem limit_respected ts : 0 < limit -> npred (settle limit (run stops limit ts)) <= limit.
+  Proof. intros Hl. rewrite settle_npred. apply fold_npred_le; [exact Hl | cbn; lia]. Qed.
+
+  Lemma step_running_npred s t :
+    fin (step stops limit s t) = None ->
+    t <> EOS /\ fin s = None /\ npred (step stops limit s t) = S (npred s).
+  Proof.
+    unfold step. destruct (fin s) as [r|] eqn:Ef; [intros H; congruence|].
+    destruct (at_limit limit s); [cbn; discriminate|].
+    destruct t as [p|]; [|cbn; discriminate].
+    destruct (find_stop (concat (pending s ++ [p])) stops); [cbn; discriminate|].
+    intros _. split; [discriminate|]. split; [reflexivity|].
+    destruct (contains_stop_suffix _ _); [reflexivity|].
+    destruct (incomplete_unicode _); reflexivity.
+  Qed.
+
+  Lemma fold_running ts : forall s,
+    fin (fold_left (step stops limit) ts s) = None ->
+    ~ In EOS ts /\ npred (fold_left (step stops limit) ts s) = npred s + length ts.
+  Proof.
+    induction ts as [|t ts IH]; intros s Hf; cbn [fold_left] in *.
+    - split; [intros []|]. cbn. lia.
+    - destruct (IH _ Hf) as [Hno Hn].
+      assert (Hs : fin (step stops limit s t) = None).
+      { destruct (fin (step stops limit s t)) as [r|] eqn:E; [|reflexivity].
+        rewrite (fold_fin_sticky stops limit ts _ r E) in Hf. congruence. }
+      destruct (step_running_npred s t Hs) as [Ht [_ Hn1]].
+      split.
+      + intros [H|H]; [congruence | exact (Hno H)].
+      + rewrite Hn, Hn1. cbn [length]. lia.
+  Qed.
+
+  (** "otherwise it ends at the end-of-sequence token or the prediction limit" *)
+  Theorem always_ends ts :
+    In EOS ts \/ (0 < limit /\ limit <= length ts) -> fin (settle limit (run stops limit ts)) <> None.
+  Proof.
+    intros H Hf.
+    assert (Hr : fin (run stops limit ts) = None).
+    { destruct (fin (run stops limit ts)) as [r|] eqn:E; [|reflexivity].
+      exfalso. unfold settle in Hf. rewrite E in Hf. rewrite E in Hf. discriminate Hf. }
+    destruct (fold_running ts init Hr) as [Hno Hn]. fold (run stops limit ts) in Hn. cbn [npred init] in Hn.
+    destruct H as [H | [Hl Hle]]; [exact (Hno H)|].
+    unfold settle in Hf. rewrite Hr in Hf.
+    assert (Ha : at_limit limit (run stops limit ts) = true).
+    { unfold at_limit. apply andb_true_iff. split; [apply Nat.ltb_lt; exact Hl | apply Nat.leb_le; lia]. }
+    rewrite Ha in Hf. cbn in Hf. discriminate Hf.
+  Qed.
+End Ends.
